@@ -152,6 +152,11 @@ impl Scenario for TxSim {
                         if let PrevRes::Panic(m, l) = &prev {
                             report!(Violation::new("C09", "C09.panic", format!("encap_preview:{}", panic_site(m, l)), format!("{} at {}", m, l)));
                         }
+                        if v6.is_some() {
+                            if let Some(v) = mon::check_c11_first_raw(&res, &buf, &[], ptype, buf_len) {
+                                report!(v);
+                            }
+                        }
                         if let Some(v) = v6 {
                             report!(v);
                         }
